@@ -541,7 +541,9 @@ def rule_loop_exit(ctx):
     ctx.check(ok, pj.fq, "draining is the only early exit before the poll", "pop_next_job returns None for another reason before consulting the database", "if self.draining: return None", where=ctx.where_of(pj))
 
 
-RESOLVING = {"set_state", "mark_completed", "_reset_step_to_pending", "_finalize_failed_run", "_restart_if_declared_again", "_discard_check_if_declared_again"}
+RESOLVING = {"set_state", "mark_completed", "_reset_step_to_pending", "_finalize_failed_run"}
+# helpers that resolve the state only when they answer True (the step was declared again and has been made pending)
+RESOLVING_IF_TRUE = ("_restart_if_declared_again", "_discard_check_if_declared_again", "_drop_verdict_if_declared_again")
 
 
 def kwarg_of(call, name):
@@ -615,9 +617,9 @@ def rule_transient_state_resolved(ctx):
                 continue
             n += 1
             calls = [(k, e[1].split(".")[-1]) for k, e in enumerate(tr) if e[0] == "call"]
-            resolved = any(nm in RESOLVING for _, nm in calls)
-            # early return right after _new_run returned no hash
             tests = [(e[1], e[2]) for e in tr if e[0] == "test"]
+            resolved = any(nm in RESOLVING for _, nm in calls) or any(v is True and any(h in t for h in RESOLVING_IF_TRUE) for t, v in tests)
+            # early return right after _new_run returned no hash
             early = tests[:1] == [("new_hash is None", True)] and any(nm == "_new_run" for _, nm in calls)
             if not (resolved or early):
                 ctx.bad(fq, "every exit gives the step a resting state", f"a path (tests {tests[:4]}) returns with the step still CHECKING/RUNNING: it is never selected again and the phase ends without it", where=ctx.where_of(fi))
@@ -777,7 +779,7 @@ MUTANTS = [
     Mutant("failed-step-stays-running", "step.py", in_function("Step.mark_completed", replace_once('                logger.info("Failed step: %s", self.label)\n                self.set_state(StepState.FAILED)\n', '                logger.info("Failed step: %s", self.label)\n')), ("R-C10-9",)),
     Mutant("validated-step-not-parked", "executor.py", in_function("Executor.validate_dynamic_job", replace_once("step.set_state(StepState.PENDING, step.has_unavailable_dynamic_input())", "step.set_state(StepState.PENDING)")), ("R-C10-9",)),
     Mutant("reset-keeps-hash", "executor.py", in_function("Executor._reset_step_to_pending", replace_once("            step.delete_hash()\n", "")), ("R-C10-9",)),
-    Mutant("validated-step-stays-checking", "executor.py", in_function("Executor.validate_dynamic_job", replace_once("        async with self.db:\n            step.set_state(StepState.PENDING, step.has_unavailable_dynamic_input())\n", "")), ("R-C10-9",)),
+    Mutant("validated-step-stays-checking", "executor.py", in_function("Executor.validate_dynamic_job", replace_once("        async with self.db:\n            if not self._drop_verdict_if_declared_again(step):\n                step.set_state(StepState.PENDING, step.has_unavailable_dynamic_input())\n", "")), ("R-C10-9",)),
     Mutant("noskip-stays-checking", "executor.py", in_function("Executor.try_skip_job", replace_once("            await self._noskip(run, step_hash, new_hash)\n            await self._reset_step_to_pending(step)\n            # The output files", "            await self._noskip(run, step_hash, new_hash)\n            # The output files")), ("R-C10-9",)),
     Mutant("cancelled-out-hash-stays-checking", "executor.py", in_function("Executor.try_skip_job", replace_once("            await self._finalize_failed_run(run)\n            return\n", "            return\n")), ("R-C10-9",)),
     Mutant("safe-merge-by-min", "scheduler.py", replace_once("SELECT i, safe, safe_nh FROM (SELECT i, safe, safe_nh, MAX(depth) FROM trace GROUP BY i)", "SELECT i, MIN(safe), MIN(safe_nh) FROM trace GROUP BY i"), ("R-C10-4",)),
